@@ -67,6 +67,17 @@ const (
 
 var identKindNames = [...]string{"goast.New()", "goast.WithResolver(guess.New())", "goast.WithResolver(guess.WithMap)", "goast.WithResolver(simple.New)", "goast.WithResolver(gobuild/stub)", "goast.WithResolver(gopackages.WithHints)"}
 
+// ownGuessResolver is what a caller does who wants guessed names plus a few of its own: it takes a
+// fresh guess.New() and fills in entries (the type is documented as a plain map). Worker i names the
+// same paths differently from every other worker.
+func ownGuessResolver(i int) resolver.RestorerResolver {
+	own := guess.New()
+	own["github.com/foo/bar-go"] = fmt.Sprintf("bar%d", i)
+	own["gopkg.in/yaml.v2"] = fmt.Sprintf("yaml%d", i)
+	own["f.dev/v2"] = "f"
+	return own
+}
+
 // truthWithout is the accurate name map minus the paths that are to fail: for the resolvers that can
 // fail by themselves (simple, gobuild over the stub finder) the failure then happens INSIDE dst's
 // resolver, not in a wrapper around it.
@@ -191,6 +202,7 @@ type workload struct {
 	workers       [][]pipeSpec
 	identKind     int
 	nameKind      int
+	ownGuess      bool            // every worker restores through a guess.New() resolver of its own that it fills itself
 	panicPaths    map[string]bool // paths for which the shared identifier resolver's name resolver panics
 	failPaths     map[string]bool // paths the shared identifier resolver's name resolver cannot name
 	nameFailPaths map[string]bool // paths the shared restore-side name resolver cannot name
@@ -632,8 +644,12 @@ func concurrentPhase(run *core.Run, w *workload, cfg sched.Config, fine bool, op
 					st.trace = append(st.trace, fmt.Sprintf("%06d w%d %s", step, i, site))
 				}
 				fs := &frState{}
+				e := shared
+				if w.ownGuess {
+					e.name = ownGuessResolver(i) // built by the worker itself, inside the schedule
+				}
 				for j, p := range ps {
-					execPipe(j, p, shared, y, &st.res, fs)
+					execPipe(j, p, e, y, &st.res, fs)
 				}
 			})
 			if !aborted {
@@ -679,6 +695,7 @@ func runScheduled(run *core.Run) {
 		// and so must everybody who asks later
 		w.nameFailPaths = map[string]bool{gen.Pool[t.Draw(len(gen.Pool))].Path: true}
 	}
+	w.ownGuess = !hintsOnly && t.Bool(1, 6)
 	sameSrc := t.Bool(1, 4) // equal inputs across workers
 	var first pipeSpec
 	for i := 0; i < nworkers; i++ {
@@ -712,7 +729,7 @@ func runScheduled(run *core.Run) {
 		}
 		w.workers = append(w.workers, ps)
 	}
-	run.Describe("scheduled: %d workers, shared ident resolver %s, shared name resolver %s, failing paths %v / %v, panicking paths %v, equal sources=%v", nworkers, identKindNames[w.identKind], faults.KindName(w.nameKind), keys(w.failPaths), keys(w.nameFailPaths), keys(w.panicPaths), sameSrc)
+	run.Describe("scheduled: %d workers, shared ident resolver %s, shared name resolver %s, failing paths %v / %v, panicking paths %v, own guess resolvers=%v, equal sources=%v", nworkers, identKindNames[w.identKind], faults.KindName(w.nameKind), keys(w.failPaths), keys(w.nameFailPaths), keys(w.panicPaths), w.ownGuess, sameSrc)
 	for i, ps := range w.workers {
 		for j, p := range ps {
 			run.Describe("worker %d pipe %d kind=%d reps=%d extras=%v split=%v sameAst=%v reuseFR=%v big=%q edits=%v alias=%v src=%d bytes hash %s", i, j, p.kind, p.reps, p.extras, p.split, p.sameAst, p.reuseFR, p.big, p.script, p.alias, len(p.src), dump.HashString(p.src))
@@ -832,15 +849,16 @@ func runScheduled(run *core.Run) {
 		}
 		var r *raceorc.Report
 		for i := range reps {
-			if reps[i].Sig != "outside-dst<->outside-dst" {
-				r = &reps[i]
+			if !strings.Contains(reps[i].Sig, "outside-dst") && !strings.Contains(reps[i].Sig, "unknown") {
+				r = &reps[i] // both accesses happen in (or under) dst code
 				break
 			}
 		}
 		if r == nil {
-			// no dst frame on either side of any report: a race inside the harness itself (possible
-			// only if dst starts goroutines of its own, which then run the harness's hooks). It says
-			// nothing about dst's accesses; counted so that it shows in the evidence, never judged.
+			// every report has a side without any dst frame: harness memory is involved (possible only
+			// if dst starts goroutines of its own, or after a run was abandoned with a goroutine still
+			// blocked inside dst). It says nothing about two accesses of dst's; counted so that it
+			// shows in the evidence, never judged.
 			run.Add("race-reports-without-dst-frames", int64(len(reps)))
 		} else {
 			run.Fail("c16/race", r.Sig, "data race between caller goroutines that share only what C16 allows:\n%s", r.Text)
@@ -854,6 +872,9 @@ func runScheduled(run *core.Run) {
 	refPanic := make([]*core.PanicInfo, nworkers)
 	for i, ps := range w.workers {
 		e := env{ident: newIdentResolver(w.identKind, w.failPaths, w.panicPaths), name: newNameResolver(w.nameKind, w.nameFailPaths)}
+		if w.ownGuess {
+			e.name = ownGuessResolver(i)
+		}
 		if pi := core.Catch(func() {
 			for j, p := range ps {
 				execPipe(j, p, e, nil, &ref[i])
